@@ -350,6 +350,16 @@ def _blanked_by_getstate(prog, c, m) -> set[str] | None:
             if (isinstance(b0, ast.Assign) and src(b0.targets[0]) == f"{st_name}[{k}]") or (isinstance(b0, ast.Delete) and src(b0.targets[0]) == f"{st_name}[{k}]") \
                     or (isinstance(b0, ast.Expr) and isinstance(b0.value, ast.Call) and src(b0.value.func) == f"{st_name}.pop" and b0.value.args and src(b0.value.args[0]) == k):
                 got = names_of(st.iter)
+        # one attribute at a time: `state.pop("x", None)`, `del state["x"]`, `state["x"] = None`
+        if got is None and isinstance(st, ast.Expr) and isinstance(st.value, ast.Call) and src(st.value.func) == f"{st_name}.pop" and st.value.args \
+                and isinstance(st.value.args[0], ast.Constant) and isinstance(st.value.args[0].value, str):
+            got = {st.value.args[0].value}
+        if got is None and isinstance(st, ast.Delete) and all(isinstance(t, ast.Subscript) and src(t.value) == st_name and isinstance(t.slice, ast.Constant) and isinstance(t.slice.value, str)
+                                                              for t in st.targets):
+            got = {t.slice.value for t in st.targets}
+        if got is None and isinstance(st, ast.Assign) and len(st.targets) == 1 and isinstance(st.targets[0], ast.Subscript) and src(st.targets[0].value) == st_name \
+                and isinstance(st.targets[0].slice, ast.Constant) and isinstance(st.targets[0].slice.value, str):
+            got = {st.targets[0].slice.value}
         if got is None:
             return None
         dropped |= got
